@@ -45,13 +45,23 @@ func genRsm(r *Rng, tier string) *Enc {
 			time.Date(2024, 12, 31, 23, 30, 0, 0, loc), time.Date(2024, 7, 1, 0, 5, 0, 0, loc),
 		}
 	}
+	far := !dst && r.Chance(6)
+	if far {
+		// instants far from the Unix epoch (historical dates, "end of time" sentinels): outside what fits a count of
+		// nanoseconds in 64 bits, next to ordinary ones
+		anchors = []time.Time{
+			time.Date(1600, 6, 15, 8, 0, 0, 0, loc), time.Date(1677, 9, 20, 0, 0, 0, 0, loc), time.Date(2262, 4, 12, 0, 0, 0, 0, loc),
+			time.Date(2400, 1, 1, 0, 0, 0, 0, loc), time.Date(9999, 12, 31, 23, 59, 59, 0, loc), time.Date(2023, 5, 5, 5, 5, 5, 0, loc),
+			time.Date(2024, 1, 1, 0, 0, 0, 0, loc), time.Date(1000, 1, 1, 0, 0, 0, 0, loc),
+		}
+	}
 	base := Pick(r, anchors)
 	ts := make([]any, n)
 	steps := []time.Duration{time.Second, time.Minute, time.Hour, 24 * time.Hour, 36 * time.Hour, 31 * 24 * time.Hour, 366 * 24 * time.Hour}
 	step := Pick(r, steps)
 	for i := range ts {
 		t := base.Add(time.Duration(r.Range(-4, 4)) * step).Add(time.Duration(r.Range(-2, 2)) * time.Second)
-		if r.Chance(10) {
+		if r.Chance(10) || (far && r.Bool()) {
 			t = Pick(r, anchors)
 		}
 		ts[i] = t
